@@ -216,12 +216,29 @@ fn verdict_case(p: &Profile, seed: u64, run: u64, ov: &Override, out: &mut RunOu
     Some((cfg, steps))
 }
 
-fn tmpdir(run: u64) -> PathBuf {
+/// scratch directory of one run; removed when dropped, also when the run
+/// unwinds out of a panic of the CLI code (KF11 used to leave one behind per hit)
+struct TmpDir(PathBuf);
+
+impl std::ops::Deref for TmpDir {
+    type Target = PathBuf;
+    fn deref(&self) -> &PathBuf {
+        &self.0
+    }
+}
+
+impl Drop for TmpDir {
+    fn drop(&mut self) {
+        let _ = std::fs::remove_dir_all(&self.0);
+    }
+}
+
+fn tmpdir(run: u64) -> TmpDir {
     let base = std::env::var("QSIM_TMP").unwrap_or_else(|_| "/tmp".into());
     let d = PathBuf::from(format!("{base}/qsim-c20-{}-{run}", std::process::id()));
     let _ = std::fs::remove_dir_all(&d);
     std::fs::create_dir_all(&d).expect("cannot create temp dir");
-    d
+    TmpDir(d)
 }
 
 fn convert_case(seed: u64, run: u64, out: &mut RunOut) {
@@ -271,14 +288,14 @@ fn convert_case(seed: u64, run: u64, out: &mut RunOut) {
     let what = format!("convert raw({size} bytes) -> qcow2 -> raw");
     if let Err(e) = crate::rqcow2::v_convert_to_qcow2_prep(&raw, &qc) {
         push(out, "convert-prep-failed", format!("{what}: {e:?}"));
-        let _ = std::fs::remove_dir_all(&dir);
+        let _ = std::fs::remove_dir_all(&*dir);
         return;
     }
     let img = std::fs::read(&qc).unwrap();
     let v = qspec::check_image(&img, true);
     if let Some((c, d)) = v.first_problem(false) {
         push(out, &format!("convert-formatted-image/{c}"), format!("{what}: {d}"));
-        let _ = std::fs::remove_dir_all(&dir);
+        let _ = std::fs::remove_dir_all(&*dir);
         return;
     }
     let sim = Sim::new(Chooser::generate(mix(seed, run)));
@@ -291,7 +308,7 @@ fn convert_case(seed: u64, run: u64, out: &mut RunOut) {
         Ok(Ok(d)) => d,
         other => {
             push(out, "convert-open-failed", format!("{what}: {:?}", other.map(|r| r.map(|_| ()))));
-            let _ = std::fs::remove_dir_all(&dir);
+            let _ = std::fs::remove_dir_all(&*dir);
             return;
         }
     };
@@ -340,7 +357,7 @@ fn convert_case(seed: u64, run: u64, out: &mut RunOut) {
     out.fingerprint = sim.core.fingerprint.get();
     out.nontrivial = size > 0;
     out.extra = json!({"raw_size": size});
-    let _ = std::fs::remove_dir_all(&dir);
+    let _ = std::fs::remove_dir_all(&*dir);
 }
 
 fn format_case(seed: u64, run: u64, out: &mut RunOut) {
